@@ -1,0 +1,27 @@
+//go:build verif
+
+package seat_manager
+
+// Verification hooks (build tag verif): a gate between the occupancy check and the
+// commit of join(), and a sequence number taken under the mutex, so that a test
+// harness can decide the interleavings of concurrent Join calls. Both are nil
+// unless a harness installs them.
+
+var (
+	// VerifGate is called inside join() after the seat was found empty and before it is taken
+	VerifGate func(point string, seatID int)
+	// VerifSeq is called at the start of Join's critical section (mutex held)
+	VerifSeq func(seatID int)
+)
+
+func verifGate(point string, seatID int) {
+	if VerifGate != nil {
+		VerifGate(point, seatID)
+	}
+}
+
+func verifSeq(seatID int) {
+	if VerifSeq != nil {
+		VerifSeq(seatID)
+	}
+}
